@@ -219,7 +219,7 @@ inline bool apply_step(MView& v, Step const& s) {
 		return true;
 	}
 	case S_CALL: {
-		if(s.nargs < 1 || s.nargs > v.D || s.nargs > 3) return false;
+		if(s.nargs < 1 || s.nargs > v.D || s.nargs > 4) return false;
 		int nidx = 0;
 		for(int k = 0; k < s.nargs; ++k) {
 			if(s.ak[k] == 0) {
